@@ -1415,6 +1415,10 @@ class Pregex():
 
         :param str pattern: The RegEx pattern that is to be examined.
         '''
+        # A reference to a group that is defined elsewhere cannot be resolved while
+        # the pattern is examined on its own: let a plain character stand in for it,
+        # so that any quantifier applied to it is still taken into account.
+        pattern = _re.sub(r"((?<!\\)(?:\\\\)*)(?:\\\d+|\(\?P=\w+\))", r"\1a", pattern)
         try:
             _re.compile(f"(?<={pattern})", flags=__class__.__flags)
         except _re.error as e:
